@@ -803,11 +803,52 @@ for _r in ("decrypt_tls13_aead", "decrypt_tls13_stream_cipher", "decrypt_tls12_c
 dec_spec("decrypt", DR, ret="Option Bytes", ext=[(r, ROUT_T) for r in DEC_ROUTINES],
          state_calls={"self." + r: dict(kind="extshared", lean=r, args=[RLR, "Bool"], ret="Bytes") for r in DEC_ROUTINES})
 
+# quic_tls_parser.py: the handshake-message parsers of a QUIC session (`handle_record` and everything below it) over one state
+# record (`QTls.St`); the varint functions are the Varint group's. NOT translated: `update_session` / `handle_buffer` (a list of
+# frame objects sorted with a key function and `list.remove` by identity, dicts of lists keyed by packet type).
+QT = "tlexport/quic/quic_tls_parser.py"
+QT_FIELDS = [("self.client_random", "client_random", "Option Bytes"), ("self.ciphersuite", "ciphersuite", "Option Bytes"),
+             ("self.alpn", "alpn", "Option Bytes"), ("self.tls_vers", "tls_vers", "Option Bytes"), ("self.greasy_bit", "greasy_bit", "Bool"),
+             ("self.new_data", "new_data", "Bool"), ("self.session_id", "session_id", "Option Bytes")]
+QT_PLACES = [(k, f, t, "s") for k, f, t in QT_FIELDS]
+GROUPS["QuicTls"] = dict(imports=["TLX.PyRt", "TLX.Quic.TlsMsgs", "TLX.Gen.Translated.Varint"], decls=[], options=["set_option linter.unusedVariables false"])
+
+
+def qtls_state_decl():
+    return ("/-- the attributes of a `QuicTlsSession` the message parsers write -/\nstructure QTls.St where\n"
+            + "".join(f"  {f} : {py2lean.ty(t)}\n" for _, f, t in QT_FIELDS) + "  deriving DecidableEq, Repr\n")
+
+
+SPECS.append(dict(name="QTls.St", group="QuicTls", kind="raw", file=QT, func=None, gen=qtls_state_decl, theorem="QTlsP.handle_record_eq_model"))
+
+
+def qtls_spec(func, params, calls=(), **more):
+    sc = {}
+    for c, cp in calls:
+        sc["self." + c] = dict(kind="shared", lean="QTls." + c, exts=[], args=[t for _, t in cp], rplaces=[], ret="None")
+    spec = dict(name="QTls." + func, group="QuicTls", file=QT, func="QuicTlsSession." + func, params=params, ret="None",
+                state=dict(type="QTls.St", param="st"), always_res=True, places=QT_PLACES, state_calls=sc, calls=VARINT_CALLS,
+                split_loops=True, theorem=f"QTlsP.{func}_eq_model")
+    spec.update(more)
+    SPECS.append(spec)
+
+
+RB1 = [("record", "Bytes")]
+qtls_spec("get_quic_transport_parameters", [("extension_body", "Bytes")], fuel={"while True": "len(extension_body) + 1"},
+          locals={"parameters": "List (Nat × Nat × Bytes)"})
+qtls_spec("get_extensions", RB1, calls=[("get_quic_transport_parameters", [("e", "Bytes")])], fuel={"while True": "len(record) + 1"},
+          locals={"extensions": "List (Bytes × Nat × Bytes)"})
+qtls_spec("handle_client_hello", RB1, calls=[("get_extensions", RB1)])
+qtls_spec("handle_server_hello", RB1, calls=[("get_extensions", RB1)])
+qtls_spec("handle_encrypted_extensions", RB1, calls=[("get_extensions", RB1)])
+qtls_spec("handle_record", [("record_type", "Nat"), ("record", "Bytes")],
+          calls=[("handle_client_hello", RB1), ("handle_server_hello", RB1), ("handle_encrypted_extensions", RB1)])
+
 THEOREMS = _uniq(theorem_of(s) for s in SPECS)
 
 
 # a group whose definitions call another group's: it cannot be proved when that one is broken
-GROUP_DEPS = {"Frames": ["Varint"], "QuicDissect2": ["Varint", "QuicDissect"]}
+GROUP_DEPS = {"Frames": ["Varint"], "QuicDissect2": ["Varint", "QuicDissect"], "QuicTls": ["Varint"]}
 
 
 def group_modules(groups):
@@ -824,7 +865,7 @@ MODULES = group_modules(GROUPS)          # all groups (`TLX.Props.Translated` im
 # property → the groups whose translated functions its model functions are (what the check proves besides its own modules)
 CHECK_GROUPS = {
     "C01": ["TlsSess", "Suites", "TlsSess2", "Decrypt"],
-    "C02": ["QuicDissect", "QuicSess", "Pn", "Varint", "Frames", "QuicDissect2"],
+    "C02": ["QuicDissect", "QuicSess", "Pn", "Varint", "Frames", "QuicDissect2", "QuicTls"],
     "C03": ["TlsSess", "QuicDissect", "Varint", "QuicDissect2", "TlsSess2"],
     "C04": ["Demux", "QuicSess", "QuicDissect"],
     "C05": ["Reasm", "Reasm2"],
@@ -1444,6 +1485,87 @@ def _dec_cases(rng, call):
     return out
 
 
+# ---- quic_tls_parser.py (group QuicTls)
+def _qtls_cases(rng, call):
+    import importlib
+    qt = importlib.import_module("tlexport.quic.quic_tls_parser")
+    out = []
+    MISSING = object()
+
+    def rb(lo, hi):
+        return bytes(rng.randrange(256) for _ in range(rng.randint(lo, hi)))
+
+    def ob(x):
+        return "none" if x is None or x is MISSING else f"(some {_b(x)})"
+
+    def vint(n):
+        return bytes([n]) if n < 64 else (0x4000 | n).to_bytes(2, "big")
+
+    def tparams():
+        b_ = b""
+        for _ in range(rng.randint(0, 3)):
+            body = rb(0, 3)
+            b_ += vint(rng.choice([1, 4, 0x2ab2, 0x2ab2, 63])) + vint(len(body) + rng.choice([0, 0, 0, 2])) + body
+        return b_[:rng.randint(0, len(b_))] if rng.random() < 0.3 else b_
+
+    def exts():
+        b_ = b""
+        for _ in range(rng.randint(0, 4)):
+            t = rng.choice([43, 16, 57, 57, 10])
+            if t == 43:
+                body = rng.choice([b"\x03\x04", b"\x03", rb(0, 3)])
+            elif t == 16:
+                nm = rb(0, 4)
+                body = rng.choice([b"\x00" + bytes([len(nm) + 1, len(nm)]) + nm, b"\x00\x05\x09ab", rb(0, 2), b"\x00\x02\x00"])
+            elif t == 57:
+                body = tparams()
+            else:
+                body = rb(0, 3)
+            b_ += t.to_bytes(2, "big") + (len(body) + rng.choice([0, 0, 0, 0, 1])).to_bytes(2, "big") + body
+        return (len(b_) + rng.choice([0, 0, 0, 0, 1])).to_bytes(2, "big") + b_
+
+    def state(o):
+        g = lambda n: getattr(o, n, MISSING)
+        return (f"{{ client_random := {ob(o.client_random)}, ciphersuite := {ob(o.ciphersuite)}, alpn := {ob(o.alpn)}, tls_vers := {ob(o.tls_vers)}, "
+                f"greasy_bit := {_bool(o.greasy_bit)}, new_data := {_bool(o.new_data)}, session_id := {ob(g('session_id'))} }}")
+    for func in ("get_quic_transport_parameters", "get_extensions", "handle_client_hello", "handle_server_hello", "handle_encrypted_extensions", "handle_record"):
+        o = qt.QuicTlsSession()
+        if rng.random() < 0.4:
+            o.alpn, o.tls_vers, o.greasy_bit = b"h3", b"\x03\x03", rng.random() < 0.3
+        before = state(o)
+        sid = rb(0, 3)
+        suites = rb(0, 2) + rb(2, 2) * rng.randint(0, 2)
+        chb = b"\x03\x03" + rb(32, 32) + bytes([len(sid)]) + sid + len(suites).to_bytes(2, "big") + suites + b"\x01\x00" + exts()
+        ch = b"\x01" + (len(chb) + rng.choice([0, 0, 0, 3])).to_bytes(3, "big") + chb
+        shb = b"\x03\x03" + rb(32, 32) + bytes([len(sid)]) + sid + rb(2, 2) + b"\x00" + exts()
+        sh = b"\x02" + len(shb).to_bytes(3, "big") + shb
+        eeb = exts()
+        ee = b"\x08" + len(eeb).to_bytes(3, "big") + eeb
+        msg = rng.choice([ch, sh, ee])
+        if rng.random() < 0.25:
+            msg = msg[:rng.randint(0, len(msg))]
+        if func == "get_quic_transport_parameters":
+            arg = tparams()
+            k, v = call(o.get_quic_transport_parameters, arg)
+            largs = _b(arg)
+        elif func == "get_extensions":
+            arg = exts() if rng.random() < 0.9 else rb(0, 5)
+            k, v = call(o.get_extensions, arg)
+            largs = _b(arg)
+        elif func == "handle_record":
+            t = rng.choice([msg[0] if msg else 1, 1, 2, 8, 11])
+            k, v = call(o.handle_record, t, msg)
+            largs = f"{t} {_b(msg)}"
+        else:
+            arg = {"handle_client_hello": ch, "handle_server_hello": sh, "handle_encrypted_extensions": ee}[func]
+            if rng.random() < 0.3:
+                arg = arg[:rng.randint(0, len(arg))]
+            k, v = call(getattr(o, func), arg)
+            largs = _b(arg)
+        out.append(("QTls." + func, f"{largs} {before}", f".ok () {state(o)}" if k == "ok" else f".raised .{v} {state(o)}"))
+    return out
+
+
 def _sess_case(rng, ses, vers, call):
     """one call of one of the record handlers on a random session state → (lean name, arguments, expected)"""
     import types
@@ -1861,6 +1983,7 @@ def _cases(rng, n):
                         if k == "ok" else f".raised .{v} {{ packet_buffer := [], tls_records := [], next_seq := none }}"))
         out.extend(_ks_cases(rng, call))
         out.extend(_dec_cases(rng, call))
+        out.extend(_qtls_cases(rng, call))
         for _ in range(2):
             out.extend(_bld_cases(rng, call))
         # output builders
